@@ -204,6 +204,10 @@ def source_templates():
                 holes = len(parts) - 1
                 if 1 <= holes <= 3 and any(parts) and all(len(q) <= 24 and re.fullmatch(r"[A-Za-z0-9_.]*", q) for q in parts):
                     out.add(tuple(parts))
+            # literal prefixes / suffixes the code tests names with:  name.startswith("tie_"), name.endswith("_Q")
+            if isinstance(n, ast.Call) and isinstance(n.func, ast.Attribute) and n.func.attr in ("startswith", "endswith") and n.args \
+                    and isinstance(n.args[0], ast.Constant) and isinstance(n.args[0].value, str) and re.fullmatch(r"[A-Za-z0-9_]{2,16}", n.args[0].value):
+                out.add((n.args[0].value, "") if n.func.attr == "startswith" else ("", n.args[0].value))
     return sorted(out)
 
 
@@ -234,6 +238,103 @@ def template_family(gate_types=("and", "nand", "or", "nor", "xor", "xnor", "not"
                     nodes.append(["k", "or", True])
                     edges += [["b", "k"], [e, "k"]]
                 yield {"name": "tpl", "nodes": nodes, "edges": edges, "bbs": {}}
+
+
+_TPL_CACHE = {}
+
+
+def adversarial_rename(cd, rng, k=2):
+    """rename up to k nodes of the circuit description to names that the library's own naming schemes would derive
+    from OTHER nodes of the same circuit (templates of the current source, see source_templates): the structure is
+    unchanged, only names collide with what a transform is about to create"""
+    if "tpl" not in _TPL_CACHE:
+        _TPL_CACHE["tpl"] = [t for t in source_templates() if not any("." in q for q in t)]
+    tpls = _TPL_CACHE["tpl"]
+    if not tpls:
+        return cd
+    names = [r[0] for r in cd["nodes"]]
+    plain = [n for n in names if "." not in n]
+    if len(plain) < 2:
+        return cd
+    ren = {}
+    # two naming schemes that can produce the same text: q + S2 == p + S1 when S1 ends with S2 (q = p + the rest), and
+    # symmetrically for prefixes -- e.g. helper f"{p}_not_x" against companion f"{q}_x" for a node q named p + "_not"
+    if rng.random() < 0.4:
+        one = [t for t in tpls if len(t) == 2]
+        cands = []
+        for (p1, s1) in one:
+            for (p2, s2) in one:
+                if (p1, s1) == (p2, s2):
+                    continue
+                if not p1 and not p2 and s1.endswith(s2) and len(s1) > len(s2):
+                    cands.append(("suffix", s1[:len(s1) - len(s2)]))
+                if not s1 and not s2 and p1.startswith(p2) and len(p1) > len(p2):
+                    cands.append(("prefix", p1[len(p2):]))
+        if cands and len(plain) >= 2:
+            how, piece = rng.choice(sorted(set(cands)))
+            victim, other = rng.sample(plain, 2)
+            new = other + piece if how == "suffix" else piece + other
+            if new not in names and not new[0].isdigit():
+                ren[victim] = new
+    for _ in range(k):
+        t = rng.choice(tpls)
+        victim = rng.choice(plain)
+        others = [n for n in plain if n != victim and n not in ren]
+        if not others or victim in ren:
+            continue
+        fills = [rng.choice(others + ["0", "1"]) for _ in range(len(t) - 1)]
+        fills[rng.randrange(len(fills))] = rng.choice(others)
+        new = instantiate(t, fills)
+        if not new or new[0].isdigit() or new in names or new in ren.values() or len(new) > 40:
+            continue
+        ren[victim] = new
+    if not ren:
+        return cd
+    r = lambda n: ren.get(n, n)
+    out = dict(cd)
+    out["nodes"] = [[r(n), t, o] for n, t, o in cd["nodes"]]
+    out["edges"] = [[r(u), r(v)] for u, v in cd["edges"]]
+    return out
+
+
+def looks_derived(name):
+    """does the name match one of the library's own naming templates (so that a transform may legitimately reject the
+    circuit with a name-clash ValueError)?"""
+    import re
+    if "re" not in _TPL_CACHE:
+        pats = []
+        for t in source_templates():
+            if any("." in q for q in t):
+                continue
+            pats.append(re.compile("^" + ".+".join(re.escape(q) for q in t) + "$"))
+        _TPL_CACHE["re"] = pats
+    return any(p_.match(name) for p_ in _TPL_CACHE["re"])
+
+
+def shuffle_nodes(cd, rng):
+    """the same circuit with its nodes (and edges) listed in another order: graph iteration order follows insertion order,
+    e.g. a gate can come before its fan-in as in a circuit built output-first"""
+    out = dict(cd)
+    out["nodes"] = list(cd["nodes"])
+    out["edges"] = list(cd["edges"])
+    rng.shuffle(out["nodes"])
+    rng.shuffle(out["edges"])
+    return out
+
+
+def guarded(what, thunk, names):
+    """run a library transform: (result, None) | (None, failure dict) | (None, "skip").
+    A ValueError that reports a name clash on a circuit containing names shaped like the library's own derived names
+    is a stated rejection (skip); any other exception of the transform is a failure of kind <what>-raises-<Type>."""
+    try:
+        return thunk(), None
+    except ValueError as ex:
+        msg = str(ex)
+        if ("already in circuit" in msg or "overlap" in msg or "already exists" in msg) and any(looks_derived(x) for x in names):
+            return None, "skip"
+        return None, {"kind": f"{what}-raises-ValueError", "msg": repr(ex)[:300]}
+    except Exception as ex:  # noqa
+        return None, {"kind": f"{what}-raises-{type(ex).__name__}", "msg": repr(ex)[:300]}
 
 
 def rng_for(seed, *salt):
